@@ -90,3 +90,21 @@ def rand_http_sig(R, headers=None):
     absent = ",".join(case_variant(R, x) for x in R.sample(cand, min(len(cand), R.choice([0, 0, 1, 2]))))
     sw = R.choice(["", "", "Firefox/", "curl", "Apache", "MSIE", "nginx"])
     return ":".join([ver, ",".join(items), absent, sw])
+
+
+WEIRD_LINES = [b"", b"\r", b"\r\r", b"\r\r\r", b" ", b"\t", b" \r", b"\r ", b":", b" :", b": ", b":\r", b"a", b"a\r", b"a:", b"a:\r", b"a:\r\r", b"a :b", b"a: b\r",
+               b"\x00", b"\x0b", b"\x0c", b"\x0b:", b" a: b", b"\ta: b", b"a:b:c", b"\xff: v", b"a: \xff", b"A" * 70 + b": v", b"a: " + b"v" * 300, b"::", b": :",
+               b"\r:", b"\r a: b", b"a\r: b", b"a: b\r\rc"]
+
+
+def line_shapes():
+    """Complete messages in which ONE line (first line, first / middle / last header) is a pathological line, for both line ends."""
+    for w in WEIRD_LINES:
+        for eol in (b"\r\n", b"\n"):
+            for first in (b"GET / HTTP/1.1", b"HTTP/1.1 200 OK"):
+                hs = [b"Host: a", b"Accept: */*", b"Connection: close"]
+                yield w + eol + eol.join(hs) + eol + eol
+                for pos in (0, 1, 3):
+                    l = hs[:pos] + [w] + hs[pos:]
+                    yield first + eol + eol.join(l) + eol + eol
+                yield first + eol + w + eol + eol
